@@ -12,6 +12,8 @@ use std::io::{BufRead, BufWriter, Write};
 
 pub use serde_json::{json, Value};
 
+pub mod ir;
+
 /// xorshift64* PRNG; the only source of randomness in the harnesses.
 #[derive(Clone)]
 pub struct Rng(pub u64);
